@@ -811,6 +811,74 @@ func cancelAfterMeta(id string, soft, unary bool) runner.Result {
 	return res
 }
 
+// waitingCalls: a unary call is in flight (its handler does not answer yet) and further calls of other
+// goroutines wait for their turn on the connection, with per-rpc statistics on or off; the waiting
+// calls' contexts are cancelled. Waiting for one's turn is an invoke that is blocked: it must return
+// with its context's error; the call in flight is not disturbed and the connection stays usable.
+func waitingCalls(id string, soft, stats bool) runner.Result {
+	mopts := drpcmanager.Options{SoftCancel: soft}
+	release := make(chan struct{})
+	handler := rig.HandlerFunc(func(stream drpc.Stream, rpc string) error {
+		var m []byte
+		if err := stream.MsgRecv(&m, payload.Enc{}); err != nil {
+			return nil
+		}
+		if rpc == "/slow" {
+			select {
+			case <-release:
+			case <-stream.Context().Done():
+			}
+		}
+		out := payload.Make(9, 1, 0, 0, 5)
+		return stream.MsgSend(&out, payload.Enc{})
+	})
+	rg := rig.New(rig.Config{Net: simnet.Opts{Cap: -1}, Client: mopts, Server: mopts, CollectStats: stats}, handler)
+	defer rg.Teardown()
+	in := payload.Make(1, 0, 0, 0, 10)
+	first := rig.Go("unary-in-flight", func() (interface{}, error) {
+		var out []byte
+		return nil, rg.Conn.Invoke(context.Background(), "/slow", payload.Enc{}, &in, &out)
+	})
+	census.Quiesce(rig.Watchdog)
+	ctx2, cancel2 := context.WithCancel(context.Background())
+	defer cancel2()
+	w1 := rig.Go("waiting-invoke", func() (interface{}, error) {
+		var out []byte
+		return nil, rg.Conn.Invoke(ctx2, "/fast", payload.Enc{}, &in, &out)
+	})
+	w2 := rig.Go("waiting-newstream", func() (interface{}, error) {
+		st, err := rg.Conn.NewStream(ctx2, "/fast", payload.Enc{})
+		if err == nil {
+			st.Close()
+		}
+		return nil, err
+	})
+	census.Quiesce(rig.Watchdog)
+	waiting := !w1.Returned() && !w2.Returned()
+	cancel2()
+	_, snap := census.Quiesce(rig.Watchdog)
+	desc := fmt.Sprintf("waiting-calls soft=%v stats=%v: a unary call in flight, an Invoke and a NewStream of other goroutines waiting for their turn (waiting=%v), their context cancelled", soft, stats, waiting)
+	key := fmt.Sprintf("cancel:waiting-calls soft=%v stats=%v", soft, stats)
+	var fails []string
+	for name, w := range map[string]*rig.Op{"Invoke": w1, "NewStream": w2} {
+		if !w.Returned() {
+			fails = append(fails, "the "+name+" that was waiting for its turn is still blocked after its context was cancelled")
+		} else if !errors.Is(w.Err, context.Canceled) {
+			fails = append(fails, fmt.Sprintf("the waiting %s returned %s, want its context's error", name, rig.ErrStr(w.Err)))
+		}
+	}
+	if len(fails) > 0 {
+		return runner.Violation(id, key+" waiting-call", desc+"\n"+strings.Join(fails, "\n")+"\n"+census.Dump(census.InDRPC(snap)))
+	}
+	close(release)
+	if !first.Wait() || first.Err != nil {
+		return runner.Violation(id, key+" call-in-flight-disturbed", fmt.Sprintf("%s\nthe call in flight, whose context nobody cancelled: returned=%v err=%v", desc, first.Returned(), first.Err))
+	}
+	res := runner.Hold(id, desc, waiting)
+	res.Events = 3
+	return res
+}
+
 // midMessage: the context is cancelled while a middle frame of a message that spans several frames
 // is inside the transport, and that write then completes successfully (its bytes were out already).
 // The send was blocked in the transport when the cancel happened: default mode promises the
@@ -1005,6 +1073,13 @@ func gen(tier string, seed uint64) []runner.Scenario {
 	}
 	r := &payload.SplitMix{S: payload.Hash(seed, 0xC04)}
 	var out []runner.Scenario
+	for _, soft := range []bool{false, true} {
+		for _, stats := range []bool{false, true} {
+			soft, stats := soft, stats
+			id := fmt.Sprintf("waiting-calls/soft=%v/stats=%v", soft, stats)
+			out = append(out, runner.Scenario{ID: id, Run: func() runner.Result { return waitingCalls(id, soft, stats) }})
+		}
+	}
 	for _, soft := range []bool{false, true} {
 		for _, unary := range []bool{false, true} {
 			for rep := 0; rep < 2; rep++ {
